@@ -8,7 +8,7 @@ use serde_json::{Value, json};
 
 pub static PROP: Prop = Prop {
     id: "C06",
-    rule: "(a) texts: repository corpus, its single-token mutation neighbourhood (delete / duplicate / swap / replace by each of a 40-token pool / indentation +-1,2; quick: seeded 12% sample, thorough: all), proptest token soups and valid-UTF-8 noise; each text is compiled, formatted under 3 option sets, every error is rendered, and if it compiles it is run under a 50 ms execution limit (sandboxed prelude without file/process functions) and the result or error is displayed. (b) core library: every callable found in the live prelude modules applied to all argument tuples of arity 0..2 (and a seeded sample of arity 3) from a boundary-value pool built fresh for every call; iterator results are drained for <= 64 steps and every result is displayed. (d) string literals assembled from every escape form of the C15 table (valid, boundary, surrogate, out of range, malformed), alone and in ordered pairs, in both quote kinds, compiled directly and through koto.load inside try. Oracle: no panic payload, no abort, no hang. Non-trivial: (a) text not verbatim in the corpus that gets past the first token; (b) call that reaches the function body (error text is not 'Unexpected arguments'). Distinct by content hash.",
+    rule: "(a) texts: repository corpus, its single-token mutation neighbourhood (delete / duplicate / swap / replace by each of a 40-token pool / indentation +-1,2; quick: seeded 12% sample, thorough: all), proptest token soups and valid-UTF-8 noise; each text is compiled, formatted under 3 option sets, every error is rendered, and if it compiles it is run under a 50 ms execution limit (sandboxed prelude without file/process functions) and the result or error is displayed. (b) core library: every callable found in the live prelude modules applied to all argument tuples of arity 0..2 (and a seeded sample of arity 3) from a boundary-value pool built fresh for every call; iterator results are drained for <= 64 steps and every result is displayed. Every corpus text is also exercised with CRLF / lone-CR line endings, a multi-line comment spliced in and a cut near the end. (d) string literals assembled from every escape form of the C15 table (valid, boundary, surrogate, out of range, malformed), alone and in ordered pairs, in both quote kinds, compiled directly and through koto.load inside try. Oracle: no panic payload, no abort, no hang. Non-trivial: (a) text not verbatim in the corpus that gets past the first token; (b) call that reaches the function body (error text is not 'Unexpected arguments'). Distinct by content hash.",
     assumptions: &[
         "allocation failure, capacity overflow and native stack overflow are resource exhaustion (excluded by the statement): counted, not reported",
         "loops that spin inside a native function (iterator.repeat without take, consumers of unbounded ranges) are excluded by construction from running",
@@ -348,6 +348,46 @@ fn run_shard(ctx: &mut Ctx) {
             let Some(m) = textgen::mutant(&c.text, &toks, k) else { continue };
             let case = json!({"kind": "text", "src": m, "may_exhaust": true});
             ctx.run_case(&case, || eval_text(&m, false, "mutant"));
+        }
+    }
+    // (a2') line-ending variants: every corpus text with CRLF (and lone CR) line breaks, a multi-line comment
+    // spliced in at a line start, cut at a seeded token boundary so that an error is reported near the end
+    let variants = ctx.tier.pick(2u64, 12u64);
+    for (ci, c) in corpus.iter().enumerate() {
+        if c.text.len() > 6000 || c.text.contains('\r') {
+            continue;
+        }
+        for v in 0..variants {
+            gidx += 1;
+            if !ctx.mine(gidx) || ctx.too_many_failures() {
+                continue;
+            }
+            let h = fnv(format!("{}:eol:{}:{}", ctx.seed, ci, v).as_bytes());
+            let eol = if h % 5 == 0 { "\r" } else { "\r\n" };
+            let lines: Vec<&str> = c.text.lines().collect();
+            if lines.is_empty() {
+                continue;
+            }
+            let at = (h >> 8) as usize % lines.len();
+            let keep = at + 1 + (h >> 24) as usize % (lines.len() - at);
+            let mut t = String::new();
+            for (i, l) in lines.iter().enumerate().take(keep) {
+                if i == at {
+                    let ind: String = l.chars().take_while(|ch| *ch == ' ').collect();
+                    t.push_str(&format!("{ind}#- one{eol}two{eol}three -#{eol}"));
+                }
+                t.push_str(l);
+                t.push_str(eol);
+            }
+            // cut inside the last kept line (v odd) to provoke a diagnostic there
+            if v % 2 == 1 {
+                let cut = t.len().saturating_sub(eol.len() + 1 + (h >> 40) as usize % 6);
+                if t.is_char_boundary(cut) {
+                    t.truncate(cut);
+                }
+            }
+            let case = json!({"kind": "text", "src": t, "may_exhaust": true});
+            ctx.run_case(&case, || eval_text(&t, false, "line-endings"));
         }
     }
     // (a3) soups and noise
